@@ -20,7 +20,7 @@ _PARSER = Parser(_LANG)
 import re as _re
 
 # a binding-less `let in` (which the library may elide): never produced by generators, rejected while shrinking
-EMPTY_LET = _re.compile(r"\blet\s+in\b")
+EMPTY_LET = _re.compile(r"\blet\b(?:\s|#[^\n]*\n|/\*.*?\*/)*\bin\b", _re.S)
 SET_TYPES = ("attrset_expression", "rec_attrset_expression")
 KEYWORDS = {"true", "false", "null"}
 
